@@ -33,6 +33,8 @@ InitSt == [hs |-> TRUE,            \* still in the opening handshake
            finalwire |-> FALSE,    \* a Connection.Close / CloseOk has been written
            pendw |-> FALSE,        \* the next transport write fails
            blkq |-> <<>>,          \* blocked-listener registrations sent, not yet handled
+           ioev |-> 0,             \* number of I/O-thread records so far
+           deadat |-> <<>>,        \* handle -> value of ioev when the model dropped its queues
            frame_max |-> 131072]
 
 Init == /\ TInit
@@ -47,6 +49,19 @@ TReset == /\ ResetStep
           /\ st' = [InitSt EXCEPT !.frame_max =
                        IF Has(Rec[l], "cfg") /\ Has(Rec[l].cfg, "tune") THEN Rec[l].cfg.tune[2] ELSE 131072]
           /\ seen' = <<>>
+
+\* The hook record of a frame precedes its dispatch, so for a while after the record a handle
+\* whose slot the dispatch removes can still be seen alive by other threads.  A handle that
+\* the model dropped during the latest I/O-thread record is therefore only "maybe" dead.
+NewlyDead(a, b) == {h \in DOMAIN b.hs : b.hs[h].dead /\ (h \notin DOMAIN a.hs \/ ~a.hs[h].dead)}
+IoStep(a, b) ==
+    [st EXCEPT !.ioev = @ + 1,
+               !.deadat = [h \in DOMAIN @ \cup NewlyDead(a, b) |->
+                             IF h \in NewlyDead(a, b) THEN st.ioev + 1 ELSE @[h]]]
+DeadView(h) ==
+    IF ~Has(w.hs, h) THEN "yes"
+    ELSE IF ~w.hs[h].dead THEN "no"
+    ELSE IF Has(st.deadat, h) /\ st.deadat[h] = st.ioev THEN "maybe" ELSE "yes"
 
 -----------------------------------------------------------------------------
 \* faults fire lazily: a pseudo-frame at the head of srvq (eof / reset / garbage), or a
@@ -151,7 +166,7 @@ TCall ==
            h == HandleName(e)
            known == Has(w.hs, h)
            ch == IF known THEN w.hs[h].ch ELSE 0
-           e2 == e @@ [dead0 |-> IF known THEN w.hs[h].dead ELSE TRUE, sends |-> Sends(e), allocid |-> -2,
+           e2 == e @@ [dead0 |-> DeadView(h), sends |-> Sends(e), allocid |-> -2,
                        gotblk |-> FALSE]
            w1 == IF known /\ Sends(e) THEN EnqAll(w, h, OpMsgs(e, ch)) ELSE w
            w2 == IF e.op \in {"listen_confirms", "listen_returns", "listen_blocked"}
@@ -177,7 +192,8 @@ TChanmsg ==
            ok == ~w.gone /\ h # "" /\ w.hs[h].pend # <<>> /\ KindNo(Head(w.hs[h].pend).k) = e.kind
        IN /\ Step(<< <<"C01:chan-order", ok>> >>)
           /\ w' = IF ok THEN Pull(w, e.ch) ELSE w
-          /\ UNCHANGED <<ops, st, seen>>
+          /\ st' = IoStep(w, w)
+          /\ UNCHANGED <<ops, seen>>
 
 TAlloc ==
     /\ IsEv("alloc")
@@ -190,7 +206,8 @@ TAlloc ==
                   THEN Enqueue(Alloc(w, e.id, name), name, SendMsg(Fr(e.id, "channel.open")))
                   ELSE w
           /\ ops' = IF pending THEN [ops EXCEPT !["conn"].allocid = e.id] ELSE ops
-          /\ UNCHANGED <<st, seen>>
+          /\ st' = IoStep(w, w)
+          /\ UNCHANGED seen
 
 TSetBlocked ==
     /\ IsEv("setblocked")
@@ -198,7 +215,7 @@ TSetBlocked ==
        IN /\ Step(<< <<"ANY:setblocked-has-caller", pending>>,
                      <<"C20:ch0-needs-steady", w.phase = "steady" /\ ~w.gone>> >>)
           /\ w' = IF pending THEN SetBlocked(w, Head(st.blkq)) ELSE w
-          /\ st' = IF pending THEN [st EXCEPT !.blkq = Tail(@)] ELSE st
+          /\ st' = [IoStep(w, w) EXCEPT !.blkq = IF pending THEN Tail(@) ELSE @]
           /\ UNCHANGED <<ops, seen>>
 
 -----------------------------------------------------------------------------
@@ -224,10 +241,12 @@ TFrame ==
        ELSE LET e == Rec[l]
                 ok == w.srvq # <<>> /\ TypeNo(Head(w.srvq).type) = e.type /\ Head(w.srvq).ch = e.ch
                 f == Enrich(Head(w.srvq))
+                w2 == IF ok THEN Settle(Dispatch([w EXCEPT !.srvq = Tail(@)], f)) ELSE w
             IN /\ Step(<< <<"C06:dispatch-order", ok>>,
                           <<"C05:no-dispatch-after-death", ~w.gone>> >>)
-               /\ w' = IF ok THEN Settle(Dispatch([w EXCEPT !.srvq = Tail(@)], f)) ELSE w
-               /\ UNCHANGED <<ops, st, seen>>
+               /\ w' = w2
+               /\ st' = IoStep(w, w2)
+               /\ UNCHANGED <<ops, seen>>
 
 \* a client frame on the wire must be the oldest queued frame
 SameFrame(a, b) ==
@@ -247,7 +266,8 @@ TC2s ==
                           <<"C08:nothing-after", ~st.finalwire>>,
                           <<"C01:env", e.type # "undecodable">> >>)
                /\ w' = IF ok THEN Settle(Wrote(w)) ELSE w
-               /\ st' = [st EXCEPT !.lastwire = IF e.type = "method" THEN e.m ELSE e.type,
+               /\ st' = [IoStep(w, IF ok THEN Settle(Wrote(w)) ELSE w)
+                         EXCEPT !.lastwire = IF e.type = "method" THEN e.m ELSE e.type,
                                    !.finalwire = @ \/ (e.type = "method" /\ e.ch = 0 /\
                                                        e.m \in {"connection.close", "connection.close-ok"})]
                /\ UNCHANGED <<ops, seen>>
@@ -308,7 +328,7 @@ CloseChecks(x, e) ==
 TRet ==
     /\ IsEv("ret")
     /\ LET e == Rec[l]
-           c == IF Has(ops, e.th) THEN ops[e.th] ELSE [op |-> "?", sends |-> FALSE, dead0 |-> TRUE]
+           c == IF Has(ops, e.th) THEN ops[e.th] ELSE [op |-> "?", sends |-> FALSE, dead0 |-> "yes"]
            op == e.op
            h0 == IF e.th = "conn" THEN "conn" ELSE e.h
            \* an open call continues on the freshly allocated handle
@@ -324,21 +344,19 @@ TRet ==
                [] op = "listen_blocked" ->
                     \* a nowait request on channel 0's own queue
                     IF ~x.hs["conn"].dead THEN << <<"C13:blocked-registered", e.ok>> >>
-                    ELSE IF c.dead0 THEN << <<"C20:either-or", ~e.ok>> >>
+                    ELSE IF c.dead0 = "yes" THEN << <<"C20:either-or", ~e.ok>> >>
                     ELSE <<>>
                [] op \in NowaitOps ->
                     IF ~Has(x.hs, h) THEN <<>>
                     ELSE IF ~x.hs[h].dead THEN << <<"C04:nowait", e.ok>> >>
-                    ELSE IF c.dead0
-                         THEN LET rep == NextReply(x, h) IN
-                              << <<ErrLabel(IF rep.ok THEN "FrameUnexpected" ELSE rep.e.kind),
-                                   ~e.ok /\ (IF rep.ok THEN e.err.kind = "FrameUnexpected"
-                                             ELSE SameErr(e.err, rep.e))>> >>
-                         ELSE \* died while the call was in progress: either outcome
-                              LET rep == NextReply(x, h) IN
-                              << <<ErrLabel(IF rep.ok THEN "FrameUnexpected" ELSE rep.e.kind),
-                                   e.ok \/ (IF rep.ok THEN e.err.kind = "FrameUnexpected"
-                                            ELSE SameErr(e.err, rep.e))>> >>
+                    ELSE LET rep == NextReply(x, h)
+                             errok == ~e.ok /\ (IF rep.ok THEN e.err.kind = "FrameUnexpected"
+                                                ELSE SameErr(e.err, rep.e))
+                             lab == ErrLabel(IF rep.ok THEN "FrameUnexpected" ELSE rep.e.kind)
+                         IN IF c.dead0 = "yes"
+                            THEN << <<lab, errok>> >>
+                            ELSE \* died while (or just before) the call was in progress: either outcome
+                                 << <<lab, e.ok \/ errok>> >>
                [] op \in {"cancel"} /\ ~c.sends -> << <<"C11:cancel-idem", e.ok>> >>
                [] op \in {"close"} /\ ~c.sends -> <<>>
                [] OTHER -> IF Has(x.hs, h) THEN SyncChecks(x, e, h, op) ELSE <<>>
@@ -394,7 +412,10 @@ TCdisc ==
     /\ LET e == Rec[l]
            x == IF CanFire(w) /\ Has(w.cq, e.c) /\ w.cq[e.c].tx THEN Fire(w) ELSE w
        IN /\ Step(<< <<"C11:disconnected", Has(x.cq, e.c) /\ ~x.cq[e.c].tx>>,
-                     <<"C03:complete", Has(x.cq, e.c) => Seen("c:" \o e.c) = Len(x.cq[e.c].q)>>,
+                     <<"C03:complete",
+                       Has(x.cq, e.c) => Seen("c:" \o e.c) >=
+                           Cardinality({i \in 1..Len(x.cq[e.c].q) : x.cq[e.c].q[i].kind = "delivery"})>>,
+                     <<"C11:one-term", Has(x.cq, e.c) => Seen("c:" \o e.c) = Len(x.cq[e.c].q)>>,
                      <<"C11:terminal-last",
                        Has(x.cq, e.c) /\ Len(x.cq[e.c].q) > 0 /\ ~x.gone
                            => x.cq[e.c].q[Len(x.cq[e.c].q)].kind # "delivery">> >>)
@@ -518,7 +539,8 @@ TOpened ==
 \* records that carry no model step
 TNoop ==
     /\ (IsEv("batch") \/ IsEv("seal") \/ IsEv("throttle") \/ IsEv("open_failed") \/ IsEv("note"))
-    /\ UNCHANGED <<w, ops, st, seen>>
+    /\ st' = IF Rec[l].ev \in {"batch", "seal", "throttle"} THEN IoStep(w, w) ELSE st
+    /\ UNCHANGED <<w, ops, seen>>
     /\ Step(<<>>)
 
 TSkip == Skipping /\ Skip /\ UNCHANGED <<w, ops, st, seen>>
